@@ -516,7 +516,7 @@ func (c33) Gen(seed int64, tier string, emit0 func(any)) {
 	// file contents of any length
 	m := 24
 	if tier == "thorough" {
-		m = 300
+		m = 60
 	}
 	for i := 0; i < m; i++ {
 		big := make([]byte, r.Intn(6000))
